@@ -727,7 +727,7 @@ char *secure_getenv(const char *name) { return getenv(name); }
 
 int clock_gettime(clockid_t clk, struct timespec *ts) {
     plan_init();
-    if (g_clock < 0 || !g_main_started) return (int)syscall(SYS_clock_gettime, clk, ts);
+    if (g_clock < 0) return (int)syscall(SYS_clock_gettime, clk, ts);
     long long ms = (long long)(g_clock_calls++) * g_clock_step_ms;
     ts->tv_sec = g_clock + (long)(ms / 1000); ts->tv_nsec = (long)(ms % 1000) * 1000000L;
     log_event('T', (int)clk, 0, 0, 0, "plan", NULL, 0);
@@ -737,7 +737,7 @@ int clock_gettime(clockid_t clk, struct timespec *ts) {
 int gettimeofday(struct timeval *tv, void *tz) {
     plan_init();
     (void)tz;
-    if (g_clock < 0 || !g_main_started) return (int)syscall(SYS_gettimeofday, tv, tz);
+    if (g_clock < 0) return (int)syscall(SYS_gettimeofday, tv, tz);
     long long ms = (long long)(g_clock_calls++) * g_clock_step_ms;
     tv->tv_sec = g_clock + (long)(ms / 1000); tv->tv_usec = (long)(ms % 1000) * 1000L;
     log_event('T', -1, 0, 0, 0, "plan", NULL, 0);
@@ -746,7 +746,7 @@ int gettimeofday(struct timeval *tv, void *tz) {
 
 time_t time(time_t *t) {
     plan_init();
-    if (g_clock < 0 || !g_main_started) { time_t r = (time_t)syscall(SYS_time, t); return r; }
+    if (g_clock < 0) { time_t r = (time_t)syscall(SYS_time, t); return r; }
     long long ms = (long long)(g_clock_calls++) * g_clock_step_ms;
     time_t r = (time_t)(g_clock + (long)(ms / 1000));
     if (t) *t = r;
@@ -756,7 +756,7 @@ time_t time(time_t *t) {
 
 pid_t getpid(void) {
     plan_init();
-    if (g_pid < 0 || !g_main_started) return (pid_t)syscall(SYS_getpid);
+    if (g_pid < 0) return (pid_t)syscall(SYS_getpid);
     log_event('P', -1, 0, g_pid, 0, "plan", NULL, 0);
     return (pid_t)g_pid;
 }
